@@ -1,7 +1,7 @@
 #!/venv/bin/python
 """Print the markdown table of confirmed seeded defects (from seeded/*/meta.json).
 
-usage: tools/seed_table.py [round]      round = 1 | 2 | 3 | 4 | F (reverse patches of repairs); default: all"""
+usage: tools/seed_table.py [round]      round = 1 | 2 | 3 | 4 | 5 | F (reverse patches of repairs); default: all"""
 import json
 import sys
 from pathlib import Path
@@ -19,8 +19,10 @@ def round_of(name: str) -> str:
     if n <= 6:
         return "2"
     if n <= 9:
-        return "4" if pid in ("C14", "C20") else "3"
-    return "4"
+        return "4" if pid in ("C14", "C20") else "3"      # C14 / C20 delivered nothing in round 3
+    if n <= 12:
+        return "5" if pid in ("C14", "C20") else "4"
+    return "5"
 
 # first-run status of the round-1 seeds (recorded in DESIGN 7.5 at the time; the 8th exit-2 case was not noted)
 FIRST = {k: "missed" for k in ("C01-3", "C02-2", "C02-3", "C09-1", "C09-2", "C09-3")}
